@@ -399,6 +399,62 @@ func runC07(c *Ctx) {
 	if !c.Quick() {
 		esizes = append(esizes, 2, 2048, 4094, 4098, 8191, 8192, 12289)
 	}
+	if c.Level("engine:several files") {
+		contents := []string{"ab ab\nb", strings.Repeat("c", 4094) + "abab", "", "b" + strings.Repeat("ab\n", 1500)}
+		var paths []string
+		for i, ct := range contents {
+			p := filepath.Join(dir, fmt.Sprintf("m%d", i))
+			os.WriteFile(p, []byte(ct), 0o644)
+			paths = append(paths, p)
+		}
+		for _, prog := range []string{"find all 'ab'", "replace all 'b' with 'X'", "find last 2 'a'", "find all 'a'\nfind skip 1 'b'", "replace all 'ab' with ''\nfind all any line end"} {
+			for _, sel := range [][]int{{0, 1}, {1, 0}, {0, 1, 2, 3}, {3, 3}, {2, 0}} {
+				prog, sel := prog, sel
+				if !c.Unit(func() string { return fmt.Sprintf("%s on files %v", prog, sel) }) {
+					continue
+				}
+				v, err, pi := compileSafe(prog)
+				if err != nil || pi != nil {
+					continue
+				}
+				var args []string
+				for _, i := range sel {
+					args = append(args, paths[i])
+				}
+				var got engine.Matches
+				pi = guard(func() { got = v.RunFiles(args, engine.NOTHING, false) })
+				rec := map[string]any{"kind": "file-vs-string", "src": prog, "files": sel}
+				if pi != nil {
+					c.Violation("RUNFILES-PANIC "+pi.Site, fmt.Sprintf("%q on files %v panics: %s", prog, sel, pi.Msg), rec)
+					continue
+				}
+				// expected: for every command, for every file argument in order, the matches of that command alone on the file's bytes
+				var want []string
+				ncmd := strings.Count(prog, "\n") + 1
+				for ci := 0; ci < ncmd; ci++ {
+					cv, _, _ := compileSafe(strings.Split(prog, "\n")[ci])
+					for _, i := range sel {
+						ms, _ := runSafe(cv, contents[i])
+						for _, m := range ms {
+							m.Filename = paths[i]
+							want = append(want, m.Filename+" "+matchRecord(m))
+						}
+					}
+				}
+				var g []string
+				for _, m := range got {
+					g = append(g, m.Filename+" "+matchRecord(m))
+				}
+				c.Eval(1)
+				if len(want) > 0 {
+					c.Nontrivial(1)
+				}
+				if strings.Join(g, "\n") != strings.Join(want, "\n") {
+					c.Violation("SEVERAL-FILES", fmt.Sprintf("%q on files %v: %d matches, expected %d (each command on each file in order): got %.300v want %.300v", prog, sel, len(g), len(want), g, want), rec)
+				}
+			}
+		}
+	}
 	caseNo := 0
 	for _, prog := range c07Programs {
 		for _, size := range esizes {
